@@ -76,7 +76,15 @@ def run_unit(target, cfg, tier='quick', findings=()):
     dsl._SYMBOLIC[0] = True
     res = dict(target=target, cfg=contract.config_name(cfg), cfg_raw=cfg, obligations=[], unsupported=[],
                witnesses=[], paths=0, errors=[], vacuous_paths=0, models=sorted(getattr(contract, 'models_used', ())))
-    hooks = make_hooks(contract, cfg)
+    from .contract import TargetMissing
+    try:
+        hooks = make_hooks(contract, cfg)
+        if not contract.target.startswith('harness:'):
+            raw_function(contract.target)
+    except TargetMissing as ex:
+        res['unsupported'].append(dict(path=0, why='contract no longer applies: %s' % ex))
+        res['wall_s'] = time.time() - t0
+        return res
     loops = make_loops(contract)
 
     def run(ctx):
